@@ -28,7 +28,12 @@ def extra(tier, seed, cov):
     if _GEN_FAILURE:
         return [("generated-equivalence", {"property": "C16", "kind": "proof layer: a definition regenerated from the Rust source "
                                            "no longer equals the hand-written model function", "repo": vlib.REPO, **_GEN_FAILURE})]
-    return []
+    # the translator's own tests (tools/test_gen_arith.py): the snippet table on every run (< 1 s),
+    # the differential self-test (generated Gallina evaluated by Coq vs the crate) in the thorough tier
+    from tools import test_gen_arith
+    res = test_gen_arith.extra_violations("C16", tier)
+    cov.setdefault("translator", {})["self_test"] = "fail" if res else ("table+differential ok" if tier == "thorough" else "table ok")
+    return res
 
 FOREIGN = 9
 
@@ -214,6 +219,130 @@ def adaptor_cases(quick, rng):
         yield sx([16, 12, bad, [[0, 0]]])
 
 
+# ---- op 14: views over zero-sized-element leaves: dimension lengths up to usize::MAX ----
+B62, B63 = 2 ** 62, 2 ** 63
+
+
+def zst_probes(lens, rng, budget):
+    """boundary alphabet of every dimension (0, 1, len-1, len, len+1, 2^62, 2^63-1, 2^63, MAX-1, MAX)"""
+    per = []
+    for L in lens:
+        a = {0, 1, 2, B62, B63 - 1, B63, B63 + 1, MAXU - 1, MAXU}
+        for x in (L - 2, L - 1, L, L + 1, L // 2):
+            if 0 <= x <= MAXU:
+                a.add(x)
+        per.append(sorted(a))
+    allp = [list(p) for p in itertools.product(*per)] if len(lens) <= 2 else None
+    if allp is not None and len(allp) <= budget:
+        return allp
+    out = [[0] * len(lens), [max(L - 1, 0) for L in lens], [min(L, MAXU) for L in lens]]
+    while len(out) < budget:
+        out.append([rng.choice(a) for a in per])
+    return out
+
+
+def zst_cases(quick, rng):
+    """finding F16 (TensorChain total length) and its neighbourhood: chains (array and tuple
+    forms, 1..4 sources) whose lengths along the chained dimension sum to just below / exactly /
+    just above usize::MAX, stacks of huge leaves, and reverse / range / mask over them"""
+    def zl(lens, names=None):
+        names = names if names is not None else list(range(len(lens)))
+        return [0, 1, [[n, l] for n, l in zip(names, lens)]]
+    budget = 60 if quick else 200
+    # 1-D chains: every multiset pattern around the overflow boundary
+    groups = [
+        [B63, B63], [B63, B63 - 1], [B63 - 1, B63], [MAXU, 1], [MAXU - 1, 1], [1, MAXU], [1, MAXU - 1],
+        [MAXU, MAXU], [MAXU], [B63], [1, 1], [3, 2],
+        [B62, B62, B62, B62], [B62, B62, B62, B62 - 1], [B62, B62, B63], [B63, B62, B62], [B63, B62, B62 - 1],
+        [B62, B63, B62 - 1], [MAXU - 2, 1, 1], [MAXU - 2, 1, 2], [1, 1, MAXU - 2, 1], [1, 1, MAXU - 3, 1],
+        [B63, 1, B63 - 1], [B63 - 1, 1, B63 - 1, 1], [B63 - 1, 1, B63 - 1, 2], [2, B63, 3], [5, 4, 3, 2],
+    ]
+    for lens in groups:
+        total = sum(lens)
+        for kind in (0, 1):
+            if kind == 1 and not 2 <= len(lens) <= 4:
+                continue
+            term = [10, [zl([L]) for L in lens], 0, kind]
+            probes = zst_probes([min(total, MAXU)], rng, budget) + [[L] for L in lens]
+            yield sx([16, 14, term, probes])
+            if total <= MAXU:
+                # adaptors over the (constructible) chain: their checked getters call its view_shape
+                yield sx([16, 14, [6, term, [0]], probes])
+                yield sx([16, 14, [1, term, [1, 0, [[[1, MAXU]]]]], probes])
+                yield sx([16, 14, [1, term, [1, 1, [[[0, total]]]]], probes])
+                yield sx([16, 14, [2, term, [1, 0, [[[1, total - 2 if total > 2 else 0]]]]], probes])
+                yield sx([16, 14, [6, [2, term, [1, 0, [[[0, 1]]]]], [0]], probes])
+            else:
+                # (not constructible since f29e87d: the adaptor is never reached; before it, these
+                # are the Option-returning getters that panicked)
+                yield sx([16, 14, [6, term, [0]], [[0], [1], [MAXU]]])
+                yield sx([16, 14, [10, [term, term], 0, kind], [[0], [1], [MAXU]]])
+    # chains of chains: each inner chain fits, the outer total does not / just does
+    for inner, outer_n in (([B62, B62], 2), ([B62, B62], 1), ([B62, B62 - 1], 2), ([B63 - 1, 1], 2), ([B62, 1], 3)):
+        for kind in (0, 1):
+            it = [10, [zl([L]) for L in inner], 0, kind]
+            if kind == 1 and outer_n < 2:
+                continue
+            total = sum(inner) * outer_n
+            yield sx([16, 14, [10, [it] * outer_n, 0, kind], zst_probes([min(total, MAXU)], rng, budget)])
+            yield sx([16, 14, [10, [it, [6, it, [0]]][:max(outer_n, 2)], 0, 0], zst_probes([min(total, MAXU)], rng, budget)])
+    # 2-D leaves: chained along either dimension; the other dimension small
+    for a, b in ((B62, 2), (B62 - 1, 2), (B63 - 1, 2), (B63, 1), (MAXU, 1), (3, 2)):
+        if a * b > MAXU:
+            continue
+        for n_src in (1, 2, 3, 4):
+            for kind in (0, 1):
+                if kind == 1 and n_src < 2:
+                    continue
+                for shape, along in (([a, b], 0), ([b, a], 1)):
+                    lens = list(shape); lens[along] = min(shape[along] * n_src, MAXU)
+                    probes = zst_probes(lens, rng, budget)
+                    term = [10, [zl(shape)] * n_src, along, kind]
+                    yield sx([16, 14, term, probes])
+                    if shape[along] * n_src <= MAXU:
+                        yield sx([16, 14, [6, term, [0, 1]], probes])
+                    # chained along the SMALL dimension: never near the boundary
+                    o = 1 - along
+                    lens2 = list(shape); lens2[o] = shape[o] * n_src
+                    yield sx([16, 14, [10, [zl(shape)] * n_src, o, kind], zst_probes(lens2, rng, budget)])
+    # stacks of huge leaves (no sum), and chains of stacks / stacks of chains
+    for L in (B63, MAXU, B62, 3):
+        for n_src in (1, 2, 3):
+            for kind in (0, 1):
+                if kind == 1 and n_src < 2:
+                    continue
+                for pos in (0, 1):
+                    lens = [L]; lens.insert(pos, n_src)
+                    st = [9, [zl([L])] * n_src, pos, 7, kind]
+                    names = [0]; names.insert(pos, 7)
+                    probes = zst_probes(lens, rng, budget)
+                    yield sx([16, 14, st, probes])
+                    yield sx([16, 14, [6, st, [0]], probes])
+                    for cn in (2, 3):
+                        lens2 = list(lens); lens2[names.index(0)] = min(L * cn, MAXU)
+                        yield sx([16, 14, [10, [st] * cn, 0, kind if cn <= 4 else 0], zst_probes(lens2, rng, budget)])
+    for lens in ([B63, B63 - 1], [B63, B63], [B62, B62]):
+        ch = [10, [zl([L]) for L in lens], 0, 0]
+        for kind in (0, 1):
+            yield sx([16, 14, [9, [ch, ch], 1, 7, kind], zst_probes([min(sum(lens), MAXU), 2], rng, budget)])
+    # ranges / masks / reversal directly over huge leaves (clipping at usize::MAX)
+    for L in (MAXU, B63, B63 + 1):
+        lf = zl([L])
+        probes = zst_probes([L], rng, budget)
+        yield sx([16, 14, lf, probes])
+        yield sx([16, 14, [6, lf, [0]], probes])
+        for s0, l0 in ((0, MAXU), (1, MAXU), (MAXU - 1, MAXU), (MAXU, 1), (B63, B63), (B63 - 1, 2), (L - 1, 1), (L, 1)):
+            for strict in (0, 1):
+                yield sx([16, 14, [1, lf, [1, strict, [[[s0, l0]]]]], probes])
+                yield sx([16, 14, [2, lf, [1, strict, [[[s0, l0]]]]], probes])
+                yield sx([16, 14, [6, [1, lf, [1, strict, [[[s0, l0]]]]], [0]], probes])
+    # invalid leaves / misuse: failure values, not crashes
+    for bad in ([0, 1, [[0, 0]]], [0, 1, [[0, MAXU], [0, 1]]], [10, [zl([B63]), zl([B63], [1])], 0, 0],
+                [10, [zl([B63])], 5, 0], [6, zl([MAXU]), [3]], [9, [zl([B63]), zl([B63 - 1])], 0, 7, 0],
+                [9, [zl([B63])], 2, 7, 0], [9, [zl([B63])], 0, 0, 0]):
+        yield sx([16, 14, bad, [[0]]])
+
+
 def collection_cases(quick, rng):
     """op 13: from_iter / from_iters over mixed-history streams (constants then variables,
     variables then constants, two lists), every tag sequence up to length 4, with matching and
@@ -251,6 +380,8 @@ def gen(tier, rng):
     for c in adaptor_cases(quick, rng):
         yield c
     for c in collection_cases(quick, rng):
+        yield c
+    for c in zst_cases(quick, rng):
         yield c
     # 1. Tensor::try_from with huge lengths
     for D in range(0, 4):
